@@ -644,7 +644,7 @@ def run_determ(ctx, pid, run, idx, replay, BUILD, ROOT):
     if ctx.tier == "thorough":
         # support only: the race detector watches the same runs
         rc, log = sh(["go", "build", "-race", "-tags", "verif", "-o", os.path.join(BUILD, "harness-race"), "."],
-                     cwd=os.path.join(ROOT, "harness"), env=dict(os.environ, GOFLAGS="-mod=mod", GOPROXY="off", GOSUMDB="off", GOTOOLCHAIN="local", CGO_ENABLED="1"))
+                     cwd=getattr(ctx, "harness_src", os.path.join(ROOT, "harness")), env=dict(os.environ, GOFLAGS="-mod=mod", GOPROXY="off", GOSUMDB="off", GOTOOLCHAIN="local", CGO_ENABLED="1"))
         if rc == 0:
             binary = os.path.join(BUILD, "harness-race")
             race_note = "built with -race"
@@ -782,15 +782,19 @@ PROPS = {
     "C11": {"runs": [cache_run_spec(proj_cache_full, ["C11"])]},
     "C20": {"runs": [cache_run_spec(proj_cache_events, ["C20"]), tx_run_spec(["C20"], compare=True, nq=200),
                      iter_run_spec(proj_iter_full, ["C20"], nq=2000)]},
-    "C13": {"runs": [iter_run_spec(proj_iter_account, ["C13"])]},
+    "C13": {"runs": [iter_run_spec(proj_iter_account, ["C13"]),
+                     # Get / GetAll with scripted column sets (fewer columns, missing aliases ...): rows and connection released
+                     {"kind": "scan", "n": {"quick": 3000, "thorough": 100000}, "oracle_props": ["C13"], "project": proj_scan_c18}]},
     "C14": {"runs": [iter_run_spec(proj_iter_full, ["C14"])]},
     "C15": {"runs": [iter_run_spec(proj_iter_c15, ["C15"]),
                      {"kind": "scan", "n": {"quick": 3000, "thorough": 100000}, "oracle_props": ["C15"], "project": proj_scan_getall}]},
-    "C03": {"uses_genconsts": True, "runs": [bind_run(proj_bind_c03, ["C03"])]},
+    "C03": {"uses_genconsts": True, "runs": [bind_run(proj_bind_c03, ["C03"]),
+                                             {"kind": "determ", "n": {"quick": 300, "thorough": 10000}, "oracle_props": ["C03"]}]},
     "C04": {"uses_genconsts": True, "runs": [bind_run(proj_bind_c04, ["C04"])]},
     "C05": {"uses_genconsts": True, "runs": [bind_run(proj_bind_c05, ["C05"]), tx_run_spec(["C05"], compare=True, nq=200)]},
     "C07": {"uses_genconsts": True, "runs": [bind_run(proj_bind_c07, ["C07"], nq=8000)]},
-    "C08": {"uses_genconsts": True, "runs": [bind_run(proj_bind_c08, ["C08"])]},
+    "C08": {"uses_genconsts": True, "runs": [bind_run(proj_bind_c08, ["C08"]),
+                                             {"kind": "determ", "n": {"quick": 300, "thorough": 10000}, "oracle_props": ["C08"]}]},
     "C01": {
         "uses_genconsts": True,
         "runs": [
